@@ -15,7 +15,8 @@ TRUSTED_BASE = [
     "Coq 8.16.1 kernel + vm_compute (case files); no native_compute, no extraction",
     "hand-written model C14_Model.v tied to /repo by the differential run of this check (real ClusterInfo, real "
     "MatchAttributes + Pop; the uint64 wrap is reached by storing a counter through an add-only export)",
-    "Pop is instrumented from the CURRENT clusterinfo.go by lib/vf/instrument.py (atomic.AddUint64 -> yield + AddUint64) and "
+    "Pop is instrumented from the CURRENT clusterinfo.go by lib/vf/instrument.py (atomic.AddUint64 and every sync.Map operation "
+    "on `loadbalancer` -> yield + the operation) and "
     "replayed under the cooperative scheduler harness/common/sched.go for the concurrent cases",
     "modelled not verified: sync.Map (Endpoints, loadbalancer) operations are atomic and, for a stable ready set, read-only "
     "except LoadOrStore of the cursor; fmt.Sprintf(\"%v\") of the ready list is injective on (identity, order) of endpoints",
@@ -29,6 +30,7 @@ ASSUMPTIONS = [
 ]
 
 LABEL = "Pop:AddUint64(lb.(*uint64), 1)"
+LABEL_MAP = "Pop:s.cluster.loadbalancer.LoadOrStore"
 TWO64 = 2 ** 64
 
 
@@ -64,10 +66,18 @@ def corpus():
         {"op": "pick"}, {"op": "pick", "all": True}, {"op": "ready", "e": 3, "b": True}, {"op": "pick", "all": True},
         {"op": "servers", "es": [1, 2, 3]}, {"op": "pick"}, {"op": "pick", "all": True}, {"op": "ready", "e": 7, "b": True},
         {"op": "cursor", "es": [1, 2], "v": str(TWO64 - 1)}, {"op": "pick"}, {"op": "pick"}]})
-    cs.append({"kind": "conc", "servers": [0, 1, 2], "ready": [0, 1, 2], "subset": [0, 1, 2], "picks": [2, 2],
-               "sched": [1, 0, 0, 1]})
-    cs.append({"kind": "conc", "servers": [0, 1], "ready": [0, 1], "subset": [1, 0], "picks": [3, 1, 2],
-               "sched": [2, 2, 0, 1, 0, 0]})
+    # concurrent pickers; every case starts on a ready list whose counter does not exist yet.
+    # "all pickers reach the map access before any proceeds", then they proceed in turn:
+    for k, ng in ((3, 2), (2, 2), (4, 4), (5, 3)):
+        srv = list(range(k))
+        cs.append(conc(srv, [(srv, [1] * ng, list(range(ng)) * 2)]))
+        cs.append(conc(srv, [(srv, [2] * ng, list(range(ng)) * 4)]))
+        cs.append(conc(srv, [(srv, [2] * ng, list(reversed(range(ng))) + list(range(ng)))]))
+    # a readiness change between phases: a new ready list = a new counter, first picks interleaved again;
+    # then back to the first list, whose counter continues
+    cs.append(conc([0, 1, 2, 3], [([0, 1, 2, 3], [2, 2], [0, 1, 0, 1]), ([0, 1, 3], [1, 1, 1], [0, 1, 2, 2, 1, 0]),
+                                  ([0, 1, 2, 3], [1, 2], [1, 0, 0, 1]), ([1, 3], [2, 1], [0, 1, 1, 0])]))
+    cs.append(conc([2, 0, 1], [([0, 1, 2], [2, 2], [1, 0, 0, 1])]))
     return cs
 
 
@@ -122,14 +132,41 @@ def gen_hist(rng):
     return {"kind": "hist", "servers": servers, "ready": ready, "subset": subset, "ops": ops}
 
 
+def conc(subset, phases):
+    return {"kind": "conc", "servers": sorted(subset), "ready": [], "subset": subset,
+            "phases": [{"ready": r, "picks": p, "sched": s} for (r, p, s) in phases]}
+
+
+def gen_sched_conc(rng, picks):
+    ng = len(picks)
+    total = 2 * sum(picks)
+    mode = rng.below(4)
+    if mode == 0:      # everybody does the map access first, then a random order
+        return list(range(ng)) + [rng.below(ng) for _ in range(rng.randint(0, total))]
+    if mode == 1:      # round robin: maximal interleaving of get-or-create and add
+        return [i % ng for i in range(rng.randint(ng, total + 2))]
+    if mode == 2:      # pairs racing on the first pick
+        a, b = rng.sample(list(range(ng)), 2) if ng >= 2 else (0, 0)
+        return [a, b, b, a] + [rng.below(ng) for _ in range(rng.randint(0, total))]
+    return [rng.below(ng) for _ in range(rng.randint(0, total + 3))]
+
+
 def gen_conc(rng):
-    k = rng.choice([2, 3, 3, 4, 5])
-    srv = list(range(k))
-    subset = rng.shuffle(srv)
-    ng = rng.choice([2, 2, 3, 3, 4])
-    picks = [rng.randint(1, 4) for _ in range(ng)]
-    sched = [rng.below(ng) for _ in range(rng.randint(0, sum(picks) + 3))]
-    return {"kind": "conc", "servers": srv, "ready": srv, "subset": subset, "picks": picks, "sched": sched}
+    k = rng.choice([3, 3, 4, 5])
+    subset = rng.shuffle(list(range(k)))
+    phases = []
+    ready = list(subset) if rng.chance(2, 3) else rng.sample(subset, k - 1)
+    for _ in range(rng.choice([1, 1, 2, 3])):
+        ng = rng.choice([2, 2, 3, 3, 4])
+        picks = [rng.randint(1, 3) for _ in range(ng)]
+        phases.append((sorted(ready), picks, gen_sched_conc(rng, picks)))
+        # flip the readiness of one endpoint, keeping at least two ready
+        e = rng.choice(subset)
+        if e in ready and len(ready) > 2:
+            ready = [x for x in ready if x != e]
+        elif e not in ready:
+            ready = ready + [e]
+    return conc(subset, phases)
 
 
 def generate(rng, tier, scale=1):
@@ -138,14 +175,13 @@ def generate(rng, tier, scale=1):
     cs += [gen_hist(rng) for _ in range(nh * scale)]
     cs += [gen_conc(rng) for _ in range(nc * scale)]
     if tier == "thorough" and scale == 1:
-        for k, picks in ((3, [3, 3]), (2, [2, 2, 2]), (5, [4, 3])):
+        for k, picks in ((3, [2, 2]), (2, [1, 1, 1]), (4, [2, 1])):
             ng = len(picks)
             seqs = [[]]
-            for _ in range(sum(picks)):
+            for _ in range(2 * sum(picks)):
                 seqs = [s + [g] for s in seqs for g in range(ng)]
             for s in seqs:
-                cs.append({"kind": "conc", "servers": list(range(k)), "ready": list(range(k)), "subset": list(range(k)),
-                           "picks": picks, "sched": s})
+                cs.append(conc(list(range(k)), [(list(range(k)), picks, s)]))
     return cs
 
 
@@ -187,19 +223,23 @@ def coq_case(case, obs):
         ready = [e for e in case["ready"]]
         pre = ["(OReady %s true)" % cZ(e) for e in ready]
         return "(CHist %s %s %s)" % (zl(case["servers"]), clist(pre + ops), zl([-2] * len(pre) + res))
-    kk = len(case["subset"])
-    picks = clist(["%d%%nat" % p for p in case["picks"]])
-    sched = clist(["%d%%nat" % max(0, g) for g in case["sched"]])
-    if "panic" in obs:
-        return "(CConc %s %s %s [(-9)] [])" % (cZ(kk), picks, sched)
-    # the global order of picks = the order of the steps in which a Pop returned (for the code as modelled:
-    # the atomic add); any other schedule point means the code no longer has the shape the model describes:
-    # the case is made to disagree with the model, the spec is still evaluated on the real global order
-    tr = zl([s["g"] for s in obs["trace"] if s["e"] == 1])     # the steps in which a Pop returned
-    res = clist([zl(r) for r in obs["results"]])
-    if any(s["l"] != LABEL for s in obs["trace"]):
-        picks = clist(["%d%%nat" % p for p in case["picks"]] + ["99%nat"])
-    return "(CConc %s %s %s %s %s)" % (cZ(kk), picks, sched, tr, res)
+    phs = []
+    ophs = obs.get("phases", []) if "panic" not in obs else []
+    for i, ph in enumerate(case["phases"]):
+        picks = ["%d%%nat" % p for p in ph["picks"]]
+        sched = clist(["%d%%nat" % max(0, g) for g in ph["sched"]])
+        if i < len(ophs):
+            o = ophs[i]
+            # a schedule point the model does not know: the code no longer has the modelled shape; the case is made
+            # to disagree with the model (an extra goroutine), the spec is still evaluated on the real order of picks
+            if any(s["l"] not in (LABEL, LABEL_MAP) for s in o["trace"]):
+                picks = picks + ["99%nat"]
+            tr = clist([cpair(cZ(s["g"]), cZ(1 if s["e"] == 1 else 0)) for s in o["trace"]])
+            res = clist([zl(r) for r in o["results"]])
+        else:
+            tr, res = "[((-9), 1)]", "[]"
+        phs.append("(%s, %s, %s, %s, %s)" % (zl(ph["ready"]), clist(picks), sched, tr, res))
+    return "(CConc %s %s)" % (zl(case["subset"]), clist(phs))
 
 
 def nontrivial_key(case, obs):
@@ -218,9 +258,9 @@ def nontrivial_key(case, obs):
     if k == "hist":
         return ("h", repr(case["ops"]), tuple(case["ready"])) if any(o["op"] in ("ready", "servers") for o in case["ops"]) and \
             sum(1 for p in obs["picks"] if p["r"] >= 0) >= 2 else None
-    tr = [s["g"] for s in obs["trace"]]
-    inter = any(tr[i] != tr[i + 1] for i in range(len(tr) - 1))
-    return ("c", len(case["subset"]), tuple(case["picks"]), tuple(tr)) if inter else None
+    trs = [tuple(s["g"] for s in p["trace"]) for p in obs["phases"]]
+    inter = any(any(t[i] != t[i + 1] for i in range(len(t) - 1)) for t in trs)
+    return ("c", tuple(case["subset"]), repr(case["phases"]), tuple(trs)) if inter else None
 
 
 def stats(case, obs):
@@ -240,8 +280,15 @@ def stats(case, obs):
         for o, p in zip(case["ops"], obs["picks"]):
             labs.append("hist:%s%s" % (o["op"], (":err" if p["r"] == -1 else ":ok") if o["op"] == "pick" else ""))
         return labs
-    return ["conc:k=%d" % len(case["subset"]), "conc:goroutines=%d" % len(case["picks"]),
-            "conc:picks=%d" % sum(case["picks"])]
+    labs = ["conc:k=%d" % len(case["subset"]), "conc:phases=%d" % len(case["phases"])]
+    for ph, o in zip(case["phases"], obs["phases"]):
+        labs.append("conc:goroutines=%d" % len(ph["picks"]))
+        tr = o["trace"]
+        ng = len(ph["picks"])
+        first = [s["g"] for s in tr[:ng]]
+        if len(set(first)) == ng and ng >= 2:
+            labs.append("conc:all-at-map-access-before-any-add")
+    return labs
 
 
 def shrink(case):
@@ -253,9 +300,13 @@ def shrink(case):
         for i in range(len(ops)):
             yield dict(case, ops=ops[:i] + ops[i + 1:])
     elif case["kind"] == "conc":
-        s = case["sched"]
-        for i in range(len(s)):
-            yield dict(case, sched=s[:i] + s[i + 1:])
+        phs = case["phases"]
+        for j in range(len(phs)):
+            if len(phs) > 1:
+                yield dict(case, phases=phs[:j] + phs[j + 1:])
+            s = phs[j]["sched"]
+            for i in range(len(s)):
+                yield dict(case, phases=phs[:j] + [dict(phs[j], sched=s[:i] + s[i + 1:])] + phs[j + 1:])
 
 
 def neighbours(case, rng):
